@@ -4,6 +4,7 @@
 // headers: `std` is #defined to a namespace that re-exports all of std but declares vector as the
 // igris::vector alias compat/std/vector declares. Every header they include is included beforehand.
 #include "c02_flat.hpp"
+#include "c02_stdref.hpp"
 #include "tracked.hpp"
 #include <algorithm>
 #include <cassert>
@@ -31,33 +32,20 @@ namespace shimstd
 
 namespace
 {
-    struct StdMapRef
+    template <class Cmp> void register_flat(const std::string &suffix)
     {
-        std::map<int, int> m;
-        void set(int k, int v) { m[k] = v; }
-        void index(int k) { (void)m[k]; }
-        void insert(int k, int v) { m.insert({k, v}); }
-        void clear() { m.clear(); }
-        bool agrees(const c02::RefMap &r) const { return std::vector<std::pair<int, int>>(m.begin(), m.end()) == r.kv; }
-    };
-    struct StdSetRef
-    {
-        std::set<int> s;
-        void insert(int k) { s.insert(k); }
-        void clear() { s.clear(); }
-        bool agrees(const std::vector<int> &r) const { return std::vector<int>(s.begin(), s.end()) == r; }
-    };
-    using Map = igris::flat_map<int, int, std::less<int>, trk::TrackAlloc<std::pair<int, int>>>;
-    using Set = igris::flat_set<int, std::less<int>, trk::TrackAlloc<int>>;
+        using Map = igris::flat_map<int, int, Cmp, trk::TrackAlloc<std::pair<int, int>>>;
+        using Set = igris::flat_set<int, Cmp, trk::TrackAlloc<int>>;
+        std::string mn = "flat_map_on_igris_vector" + suffix, sn = "flat_set_on_igris_vector" + suffix;
+        mc::add_bfs(mn, [mn] { return std::unique_ptr<mc::Model>(new c02::MapModel<Map, c02::StdMapRefT<Cmp>, Cmp>(mn, mc::thorough() ? 3 : 2, 3, true)); });
+        mc::add_bfs(sn, [sn] { return std::unique_ptr<mc::Model>(new c02::SetModel<Set, c02::StdSetRefT<Cmp>, true, Cmp>(sn, mc::thorough() ? 4 : 3)); });
+    }
 }
 
 MC_INIT
 {
-    mc::add_bfs("flat_map_on_igris_vector", [] {
-        return std::unique_ptr<mc::Model>(new c02::MapModel<Map, StdMapRef>("flat_map_on_igris_vector", mc::thorough() ? 3 : 2, 3, true));
-    });
-    mc::add_bfs("flat_set_on_igris_vector", [] {
-        return std::unique_ptr<mc::Model>(new c02::SetModel<Set, StdSetRef, true>("flat_set_on_igris_vector", mc::thorough() ? 4 : 3));
-    });
+    register_flat<std::less<int>>("");
+    register_flat<std::greater<int>>("_greater");
+    register_flat<c02::HalfLess>("_half_less");
 }
 MC_MAIN
